@@ -165,6 +165,9 @@ class BlockEval:
         if isinstance(e, ast.Attribute) and e.attr == "T":
             t, (a, b) = self.ev(e.value, roles, m_one, depth + 1)
             return T(t), (b, a)
+        if isinstance(e, ast.Attribute) and e.attr == "H":
+            t, (a, b) = self.ev(e.value, roles, m_one, depth + 1)
+            return T(C(t)), (b, a)
         if isinstance(e, ast.Call) and isinstance(e.func, ast.Attribute) and e.func.attr in ("conj", "conjugate") and not e.args:
             t, shp = self.ev(e.func.value, roles, m_one, depth + 1)
             return C(t), shp
@@ -190,8 +193,13 @@ class BlockEval:
     def block_expressions(self, roles):
         """maximal array expressions that contain a product with the block operator"""
         mnames = {n for n, r in roles.items() if r == "M"}
-        prods = [n for n in df.body_nodes(self.fnode) if isinstance(n, ast.BinOp) and isinstance(n.op, ast.MatMult)
-                 and any(isinstance(x, ast.Name) and x.id in mnames for x in (n.left, n.right))]
+        def is_block(x):
+            while isinstance(x, ast.Attribute) and x.attr in ("T", "H"):
+                x = x.value
+            if isinstance(x, ast.Call) and isinstance(x.func, ast.Attribute) and x.func.attr in ("conj", "conjugate") and not x.args:
+                return is_block(x.func.value)
+            return isinstance(x, ast.Name) and x.id in mnames
+        prods = [n for n in df.body_nodes(self.fnode) if isinstance(n, ast.BinOp) and isinstance(n.op, ast.MatMult) and (is_block(n.left) or is_block(n.right))]
         out = []
         for p in prods:
             cur = p
